@@ -2,13 +2,36 @@
 """Regenerates MANIFEST.json from the table below (kept as code so that it stays consistent)."""
 import json
 
+MIRSYM = "symbolic execution of the rustc MIR of /repo's working tree by the own engine mirsym over z3 (all feasible paths, decision replay; counterexamples replayed natively through Program::compile/execute with logging host functions)"
+KANI = "Kani proof harnesses (kani::any inputs, #[kani::unwind]) over the compiled real code; CBMC + CaDiCaL decide every assignment within the stated bounds"
 CLAIMED = {
- "C08": ("5 C08", "every (Int,Int) and (UInt,UInt) pair under + - * is decided against an exact 128-bit oracle over the full 64-bit domain; / and % are decided for outcome class over the full domain and for value against the machine's truncating division with one operand from a boundary list (other fully symbolic) and with both symbolic at reduced magnitude together with the algebraic law; mixed int/uint/double operands are rejected for all payloads. Unary minus lives in Value::resolve and is outside the claim.",
-         "Kani proof harnesses over <Value as Add/Sub/Mul/Div/Rem>; CBMC+CaDiCaL decide all 2^128 operand pairs per harness"),
+ "C02": ("5 C02", "Host-facing half only: for every operand pair the harnesses of C08/C09/C15/C16 reach, plus double arithmetic, the fall-through arms with heap-backed kinds, equality/ordering over all 100 kind pairs, string() of every chrono duration and the ten timestamp accessors at chrono's MIN/MAX instants, CBMC proves that no panic, overflow, bounds or unwrap failure is reachable and that the result is a value or an error value. Whole-program execution through Value::resolve is outside the claim.", KANI),
+ "C06": ("10", "Node-level, by induction on the expression tree: Value::resolve is executed symbolically (its MIR, from the function entry) for one `&&`, `||`, `?:`, `!` or `@not_strictly_false` node whose operand evaluations are abstract events returning arbitrary results (error, bool, int, uint, null with symbolic payloads). Proved on every feasible path: `a && b` never evaluates b when a is falsy, `a || b` never evaluates b when a is truthy, `c ? x : y` evaluates exactly one branch, and the result is the specified one. A skipped operand's resolve is never called, so nothing inside it (errors, host calls) can happen at any depth, macro bodies included, because every nested node is again an Expr::Call handled by the same code. Trusted: the Python models of the std calls on that path; the parser producing these operator names (C04).", MIRSYM),
+ "C07": ("10", "Dispatcher level: for every operator node (17 operators) and every function-call node f(..) / x.f(..) with 0-3 arguments, Value::resolve (MIR) evaluates each operand/receiver at most once, left to right, receiver before anything else, the first error aborts, and arguments of function calls are not evaluated by the dispatcher at all (they are handed, unevaluated and in order, to the function). Together with C20's extractor check (each extractor evaluates exactly the argument it consumes, once) this bounds the evaluations per node by its number of children. List/map literal, select and comprehension nodes are outside the claim.", MIRSYM),
+ "C11": ("10", "Both halves at the level of the evaluator's own code: (1) macro scoping - Value::resolve is executed symbolically (MIR) for one comprehension node over lists of 0-3 elements with abstract sub-expressions: range and accumulator initialiser are evaluated in the outer scope, exactly one inner scope is opened, accumulator and iteration variable are only ever bound there, condition/step/result are evaluated in the inner scope in the prescribed order with early exit, the first error aborts, nothing is bound in the outer scope; nested macros reuse the same code, so inner bindings shadow and never leak by induction. (2) context operations - Context::get_variable / add_variable_from_value (MIR) over every chain of 1-3 scopes defining any subsets of three names: lookup returns the innermost binding or UndeclaredReference, (re)definition in the innermost scope leaves all enclosing scopes untouched. std HashMap is modelled as a finite map. The variable/function namespace separation is by construction (separate fields) and not checked; macro expansion (parser) is outside.", MIRSYM),
+ "C08": ("5 C08", "+ - * on (Int,Int) and (UInt,UInt) are decided against an exact 128-bit oracle over the full 64-bit domain (int * int as three harnesses that partition i64 x i64); / and % are decided for outcome class over the full domain and for value against the machine's truncating division with one operand from a boundary list and the other fully symbolic, and with both symbolic at reduced magnitude together with the algebraic law; mixed int/uint/double operands are rejected for all payloads. Unary minus lives in Value::resolve and is outside the claim.", KANI),
+ "C09": ("5 C09", "eq/ne/partial_cmp of Value over all nine numeric kind pairs and all 64-bit payloads against an exact real-number comparison oracle, the coherence laws (negation, symmetry, antisymmetry, trichotomy, <= and >= derivations), transitivity and congruence over all 27 numeric kind triples, and 'unrelated kinds are unequal and unordered' over all cross-family pairs of ten kinds. Strings by code point, list/map equality with symbolic contents, min/max and the evaluator's mapping of partial_cmp to operators are outside the claim.", KANI),
+ "C13": ("5 C13", "int(), uint(), double() called directly on every f64 bit pattern / every 64-bit integer: exact truncation or an error exactly outside the target range (NaN included), double(int|uint) is the IEEE nearest-even double (exact integer-distance oracle), identities bit-exact. Literal parsing (ANTLR), string()/bytes() round trips are outside the claim.", KANI),
+ "C14": ("5 C14", "Map half: for one-entry maps with int/uint/bool keys of any payload and queries of every kind, Map::get, functions::contains and the reference notion 'some stored key denotes the same CEL key (int/uint twins are one key)' agree. The map is the cfg(kani) association-list model (hook H1); counterexamples are replayed against the real std HashMap. Index/in/select/has (arms of Value::resolve), lists, size and concatenation laws are outside the claim.", KANI),
+ "C15": ("5 C15", "string(duration) is proved canonical (reads back to exactly n, unique canonical Go spelling) for EVERY i64 nanosecond count by symbolic execution of the MIR of format_duration/format_float/format_int over z3 integers (all feasible paths, all overflow/bounds asserts discharged), and byte-equal to an independent port of Go's Duration.String for |n| < 1 ms by Kani; duration +,-,==,< are decided over chrono's whole range against exact (secs,nanos) oracles, overflow is an error, never a panic. duration() parsing (nom + f64 parsing) and the string round trip through it are outside the claim.", "MIR symbolic execution (own engine mirsym, z3 linear integer arithmetic) + " + KANI),
+ "C16": ("5 C16", "The ten accessors against an integer proleptic-Gregorian oracle for every instant within 2^21 s (2^18 at the range ends) of eight boundary dates, every nanosecond, every offset -12:00..+14:00 in seconds; equality/ordering by instant for any two timestamps in years 0001-9999 at any two offsets; t+d-d==t, (t+d)-t==d and 'exactly d later' for sub-day and whole-day durations around leap days; at chrono's limits +/- is an error, not a panic. RFC 3339 text round trip is outside the claim.", KANI),
+ "C20": ("10", "Binding mechanics: (1) call site - Value::resolve builds the FunctionContext with the called name, the receiver resolved exactly once (or None), the argument expressions unevaluated and in order, arg_idx 0, and returns what the function returns; an undeclared name is UndeclaredReference(name). (2) extractors - This<T> takes the receiver when present and otherwise consumes exactly the first argument (so x.f(a) and f(x, a) bind the same values in the same order), positional extractors consume arguments by index, evaluate each once against the parent context, and report a missing argument as InvalidArgumentCount / MissingArgumentOrTarget, never a panic; Expression/Identifier return the unevaluated argument; Arguments evaluates all in order. All on the MIR of magic.rs / resolvers.rs / objects.rs, every feasible path, FunctionContexts with 0-3 arguments. Handler adapters for arities 0-9 (generic closures), FromValue conversions per type and registry replacement are outside the claim.", MIRSYM),
+ "C17": ("5 C17", "Scalar half: every integer width, f32/f64 (bit-exact), bool, Option nesting, unit, unit struct, newtype nesting and the Duration wrapper over chrono's whole range convert to the value of the same shape, and for JSON-representable scalars conversion commutes with serde_json. Sequences, maps, structs, enum variants, char/str payloads and the Timestamp wrapper are outside the claim.", KANI),
+ "C18": ("5 C18", "Scalar half: Int/UInt/Bool/Null/Float (non-finite -> null)/Duration (both sides of 2^63 ns)/Function export as specified, errors instead of panics, and re-import equals the original for JSON-native scalars. Lists, maps, bytes, strings and timestamps are outside the claim.", KANI),
 }
 NA = {
+ "C01": "deciding code is the antlr4rust runtime (ATN interpreter, lazy_static, Rc<RefCell>, std HashMap DFA caches) plus 6.7k lines of generated parser: not executable by Kani (measured, DESIGN.md section 2) and far outside a hand-written MIR encoder",
+ "C03": "compositional evaluation is Value::resolve; a single `_+_` node over two literals does not finish in 900 s of symbolic execution (DESIGN.md section 2); the leaf semantics it composes are decided under C08/C09/C13/C14",
+ "C04": "precedence/associativity is decided by the ANTLR grammar and prediction; visitor methods take parse-tree contexts that only a parser run can construct",
+ "C05": "thread interleavings have no model in Kani; the sequential half reduces to in-place list/string append, which does not finish with one symbolic element (420 s), and re-execution goes through Value::resolve",
+ "C10": "macro expansion needs the parser's MacroExprHelper and the fold loop is Value::resolve over Call nodes; not executable symbolically here",
+ "C12": "lexer is ANTLR; the decoder parse.rs runs under Kani only on concrete text: one symbolic character (String::push of a symbolic char) or two symbolic hex digits do not finish in 240-500 s",
+ "C19": "references() is built on std HashSet (not executable by Kani) and the undeclared-reference side is Value::resolve",
 }
-PENDING = ["C02", "C09", "C13", "C14", "C15", "C16", "C17", "C18"]
+PENDING = []
+
+import subprocess
+HOOK_COMMITS = [l.split()[0] for l in subprocess.run(['git','-C','/repo','log','--format=%h %s'],capture_output=True,text=True).stdout.splitlines() if l.split(' ',1)[1].startswith('verif hook')]
 
 def main():
     checks = []
@@ -19,9 +42,9 @@ def main():
             "thorough_cmd": "./check %s --tier thorough" % pid,
             "evidence_file": "evidence/%s.json" % pid,
             "replay_cmd_template": "./check --replay {path}",
-            "engine": "kani",
+            "engine": {"C15": "kani+mirsym", "C08": "kani+mirsym", "C09": "kani+mirsym", "C06": "mirsym", "C07": "mirsym", "C20": "mirsym"}.get(pid, "kani"),
             "level_claimed": {"category": "model_checking", "text": text, "design_ref": "DESIGN.md section " + ref},
-            "level_note": "Bounded model checking of the compiled real code with Kani 0.68/CBMC 6.11 (CaDiCaL): a pass means no assignment of the symbolic inputs within the stated bounds violates an assertion; unwinding assertions are on; trusted: Kani/CBMC, the harness oracles (validated against the repository's own test vectors at start-up), std HashMap (not executed symbolically); counterexamples are replayed natively (dev and release) before a VIOLATION is printed.",
+            "level_note": ("Symbolic execution of the real MIR (rustc nightly, overflow checks on) with z3 deciding every branch feasibility and obligation; std calls on the executed paths are modelled in Python and listed in the evidence; counterexamples are replayed natively before a VIOLATION is printed. " if pid in ("C06", "C07", "C20") else "") + "Bounded model checking of the compiled real code with Kani 0.68/CBMC 6.11 (CaDiCaL): a pass means no assignment of the symbolic inputs within the stated bounds violates an assertion; unwinding assertions are on; trusted: Kani/CBMC, the harness oracles (validated against the repository's own test vectors at start-up), std HashMap (not executed symbolically); counterexamples are replayed natively (dev and release) before a VIOLATION is printed.",
             "technique": tech,
         })
     na = [{"property_id": k, "reason": v} for k, v in sorted(NA.items())]
@@ -33,14 +56,16 @@ def main():
             "guard": "cfg(kani)",
             "enable": "cargo kani sets --cfg kani for every crate it builds; no hook is compiled in any other build",
             "baseline_off_cmd": "cd /repo && cargo test --workspace --no-fail-fast --offline",
-            "source_commits": [],
-            "add_only": True,
+            "source_commits": HOOK_COMMITS,
+            "add_only": False,
         },
         "engines": [{"name": "kani", "path": "kani/", "serves_properties": sorted(CLAIMED),
-                     "kind_free_text": "Kani 0.68 proof harnesses (crate /verif/kani, path dependencies on /repo) decided by CBMC 6.11 + CaDiCaL; native replay binary from the same harness bodies"}],
+                     "kind_free_text": "Kani 0.68 proof harnesses (crate /verif/kani, path dependencies on /repo) decided by CBMC 6.11 + CaDiCaL; native replay binary from the same harness bodies"},
+                    {"name": "mirsym", "path": "mirsym/", "serves_properties": ["C06", "C07", "C08", "C09", "C15", "C20"],
+                     "kind_free_text": "own symbolic executor for rustc MIR text (nightly -Zunpretty=mir of /repo's working tree, overflow checks on) over z3 integers; path enumeration by decision replay; used where bit-blasting 64-bit division chains does not finish"}],
         "checks": checks,
         "not_applicable": na,
-        "notes": "exit 2 from a check means inconclusive (solver timeout, unwinding assertion, vacuous harness, non-reproducing counterexample); it is never reported as success or as a violation.",
+        "notes": "hooks: one cfg(kani)-only module (interpreter/src/verif_map.rs) plus cfg attributes on four `use std::collections::HashMap` lines (one combined `use` line was split, hence add_only=false) and a check-cfg lint entry in interpreter/Cargo.toml; no normal build compiles any of it. exit 2 from a check means inconclusive (solver timeout, unwinding assertion, vacuous harness, non-reproducing counterexample); it is never reported as success or as a violation.",
     }
     json.dump(m, open("/verif/MANIFEST.json", "w"), indent=1)
 
